@@ -54,7 +54,9 @@ func (ex *Exec) scanWrites(fn *ssa.Function, blocks map[*ssa.BasicBlock]bool, ws
 			case *ssa.Alloc:
 				if ins.Heap {
 					ws.allocs = true
-					addPtrHeap(ins.Type().(*types.Pointer).Elem())
+					if !(&Frame{ex: ex}).readOnlyCell(ins) {
+						addPtrHeap(ins.Type().(*types.Pointer).Elem())
+					}
 				} else {
 					ws.cells[ins] = true
 				}
@@ -65,6 +67,8 @@ func (ex *Exec) scanWrites(fn *ssa.Function, blocks map[*ssa.BasicBlock]bool, ws
 				r := rootOf(ins.Addr)
 				if a, ok := r.(*ssa.Alloc); ok && !a.Heap {
 					ws.cells[a] = true
+				} else if a, ok := r.(*ssa.Alloc); ok && a.Heap && (&Frame{ex: ex}).readOnlyCell(a) {
+					// initialisation of a read-only (phantom) cell: no heap write
 				} else if ia, ok := r.(*ssa.IndexAddr); ok {
 					// slice element store: written back through the origin place; approximate by the origin's root
 					if ld, ok := ia.X.(*ssa.UnOp); ok {
